@@ -280,16 +280,26 @@ func runC17(a *A) {
 						if lk == nil {
 							return false, ""
 						}
-						mt := TermOf(lk.X, nil).String()
-						switch {
-						case strings.Contains(mt, "outputAggs") && isFieldOf(TermOf(lk.Index, nil), "window.triggerSpec", "outputAlias"):
-							kinds["output alias"] = true
-							ok1 = true
-						case strings.Contains(mt, "triggerAggs") && isFieldOf(TermOf(lk.Index, nil), "window.triggerSpec", "placeholder"):
-							kinds["own trigger aggregate"] = true
-							ok1 = true
-						default:
-							return false, ""
+						// the map and the name may be chosen together first (`source, name := trig, ph; if alias != "" {
+						// source, name = out, alias }; source[name]`): the pairs that arrive over the same edge
+						xs, is := []ssa.Value{lk.X}, []ssa.Value{lk.Index}
+						if px, isPx := lk.X.(*ssa.Phi); isPx {
+							if pi, isPi := lk.Index.(*ssa.Phi); isPi && pi.Block() == px.Block() && len(pi.Edges) == len(px.Edges) {
+								xs, is = px.Edges, pi.Edges
+							}
+						}
+						for j := range xs {
+							mt := TermOf(xs[j], nil).String()
+							switch {
+							case strings.Contains(mt, "outputAggs") && isFieldOf(TermOf(is[j], nil), "window.triggerSpec", "outputAlias"):
+								kinds["output alias"] = true
+								ok1 = true
+							case strings.Contains(mt, "triggerAggs") && isFieldOf(TermOf(is[j], nil), "window.triggerSpec", "placeholder"):
+								kinds["own trigger aggregate"] = true
+								ok1 = true
+							default:
+								return false, ""
+							}
 						}
 					}
 					if !ok1 {
@@ -411,7 +421,46 @@ func runC17(a *A) {
 		for _, st := range storesToField(fn, ph) {
 			n++
 			ok := false
+			positional := func(v ssa.Value) bool {
+				if !isIntType(v.Type()) {
+					return false
+				}
+				if cv, isCv := v.(*ssa.Convert); isCv {
+					v = cv.X
+				}
+				if bo, isB := v.(*ssa.BinOp); isB && bo.Op == token.ADD {
+					return true
+				}
+				if _, isPhi := v.(*ssa.Phi); isPhi {
+					return true
+				}
+				if lc, isCall := v.(*ssa.Call); isCall {
+					if cc, isLen := isBuiltinCall(lc, "len"); isLen && isFieldOf(TermOf(cc.Args[0], nil), "window.GlobalWindow", "triggerSpecs") {
+						return true
+					}
+				}
+				return false
+			}
+			// "__trig_" + strconv.Itoa(i) + "__": the number rendered by strconv inside a concatenation
+			var inConcat func(v ssa.Value, d int) bool
+			inConcat = func(v ssa.Value, d int) bool {
+				if d > 6 {
+					return false
+				}
+				switch x := v.(type) {
+				case *ssa.BinOp:
+					return x.Op == token.ADD && (inConcat(x.X, d+1) || inConcat(x.Y, d+1))
+				case *ssa.Call:
+					if (isCallNamed(x, "strconv", "Itoa") || isCallNamed(x, "strconv", "FormatInt") || isCallNamed(x, "strconv", "FormatUint")) && len(x.Call.Args) > 0 {
+						return positional(x.Call.Args[0])
+					}
+				}
+				return false
+			}
 			for _, leaf := range phiLeaves(st.Val) {
+				if inConcat(leaf, 0) {
+					ok = true
+				}
 				c, isCall := leaf.(*ssa.Call)
 				if !isCall || !isCallNamed(c, "fmt", "Sprintf") {
 					continue
